@@ -36,6 +36,15 @@ STRENGTH_ID = {
  "C20-m5": "dense namespaces of 999-4097 values next to a string / sparse namespace", "C20-m6": "caught as built", "C11-m5": "caught as built", "C11-m6": "caught as built", "C07-m5": "caught as built", "C07-m6": "caught as built",
  "C16-m5": "actions that are coba's own row types (HeadDense, LazyDense, LazySparse)", "C16-m6": "first reported without a concrete input; histories that open with one single action offered repeatedly were added",
  "C18-m5": "caught as built", "C18-m6": "Results with 12-13 environments (ids of one and two digits); C17's generator got single-keyword 'in' conditions over values 0..11 as well", "C02-m5": "caught as built", "C02-m6": "a log of more than a thousand records (36 x 30 triples) is resumed at three cut points",
+ "C05-m7": "users law: a seeded Reservoir / Shuffle object read twice, a fresh one and a pickled copy must agree", "C05-m8": "shuffle is handed lists, tuples and one-shot iterables (iterator, generator, map)",
+ "C13-m7": "view-vs-view equality over the same materialised row objects (differently parameterised drops, encoders, label splits)", "C13-m8": "lazy dense ARFF rows with mixed quote styles first touched in a random order",
+ "C11-m7": "caught as built", "C11-m8": "time-stamp like features (1.7e9 + small) added before the run; the comparison tolerance for such cases is 1e-6 (binary64 carries 2e-7 through x+shift)",
+ "C09-m7": "several environments through Environments.cache()/chunk()/batch().unbatch(), read in any order (added before the run)", "C09-m8": "caught as built",
+ "C14-m7": "header names that look like numbers (added before the run)", "C14-m8": "Categorical labels whose level lists differ in order; rewards are asked with the very action objects the environment offers",
+ "C17-m7": "caught as built", "C17-m8": "caught as built", "C20-m7": "caught as built", "C20-m8": "caught as built", "C12-m7": "caught as built", "C12-m8": "the level '0' added to the token alphabet (added before the run)",
+ "C07-m7": "a result file holding only a torn first record (1-12 bytes, plain and gz) or a line break before the run", "C07-m8": "restored runs whose earlier run left some evaluations without rows",
+ "C18-m7": "caught as built", "C18-m8": "caught as built", "C16-m7": "one action list edited in place between rounds (added before the run; found and fixed 660d6ec on the way)", "C16-m8": "sparse actions whose keys have different types (added before the run)",
+ "C02-m7": "caught as built (escalated every-byte cuts)", "C02-m8": "caught as built",
  "C20-m3": "caught as built (interleaved terms such as 'xax')", "C20-m4": "caught as built (number-first mixed sequences)",
 }
 def heading(pid, m):
